@@ -55,6 +55,10 @@ func zzGetScenario(k int) {
 	w.bright.SetValue(bv)
 	ov := verif.Bool("app-on")
 	w.on.SetValue(ov)
+	bv2 := int(verif.U8("app-brightness-2"))
+	verif.Assume(bv2 <= 100 && bv2 != bv) // the second accessory's same-iid characteristic holds another value
+	w.bright2.SetValue(bv2)
+	verif.Assert(w.bright2.Characteristic.ID == w.bright.Characteristic.ID && w.acc2.ID != w.acc.ID, "world-has-colliding-instance-ids")
 
 	n := 1 + verif.Choice("entries", k)
 	ids := ""
@@ -107,6 +111,8 @@ func zzGetScenario(k int) {
 		switch c {
 		case w.bright.Characteristic:
 			verif.Assert(zzNumEq(ent["value"], float64(bv)), "get-value-is-what-the-application-set")
+		case w.bright2.Characteristic:
+			verif.Assert(zzNumEq(ent["value"], float64(bv2)), "get-value-of-the-second-accessory")
 		case w.on.Characteristic:
 			b, ok := ent["value"].(bool)
 			// encoding/json omits false under omitempty-on-interface? no: the interface is non-nil
